@@ -57,6 +57,23 @@ func choiceString(h []rdStep) string {
 	return sb.String()
 }
 
+// byteCountingReader is an io.Reader that is also an io.ByteReader (as bytes.Reader and bufio.Reader are)
+// and counts what is taken from it.
+type byteCountingReader struct{ c *countingReader }
+
+func (b *byteCountingReader) Read(p []byte) (int, error) { return b.c.Read(p) }
+func (b *byteCountingReader) ReadByte() (byte, error) {
+	var one [1]byte
+	n, err := b.c.Read(one[:])
+	if n == 1 {
+		return one[0], nil
+	}
+	if err == nil {
+		err = io.ErrNoProgress
+	}
+	return 0, err
+}
+
 // chunkReader hands out at most n bytes per Read, like a pipe or a socket does.
 type chunkReader struct {
 	r io.Reader
@@ -84,6 +101,9 @@ func runReaderCase(c *rdCase, file []byte, src string, dir string) (string, stri
 	case "io.Reader":
 		cnt = &countingReader{r: bytes.NewReader(file)}
 		r = cnt
+	case "io.ByteReader": // consumption counted on a source that offers ReadByte
+		cnt = &countingReader{r: bytes.NewReader(file)}
+		r = &byteCountingReader{cnt}
 	case "io.Reader/1", "io.Reader/7": // short reads
 		cnt = &countingReader{r: bytes.NewReader(file)}
 		r = &chunkReader{cnt, int(src[len(src)-1] - '0')}
@@ -116,6 +136,11 @@ func runReaderCase(c *rdCase, file []byte, src string, dir string) (string, stri
 			return "roots", fmt.Sprintf("root %d = %s want %s", i, br.Roots[i], wantRoots[i])
 		}
 	}
+	type kept struct {
+		md   *carv2.BlockMetadata
+		step int
+	}
+	var keptMd []kept // every *BlockMetadata handed out stays exact after later calls
 	for i, st := range c.Hist {
 		if st.Call == "next" {
 			blk, err := br.Next()
@@ -143,6 +168,7 @@ func runReaderCase(c *rdCase, file []byte, src string, dir string) (string, stri
 			if err != nil {
 				return "skip-error", fmt.Sprintf("step %d: SkipNext failed on a valid archive: %v", i, err)
 			}
+			keptMd = append(keptMd, kept{md, i})
 			b := alphaByID[st.B]
 			if !md.Cid.Equals(b.Cid) {
 				return "skip-cid", fmt.Sprintf("step %d: SkipNext CID %s, want %s (%s)", i, md.Cid, b.Cid, b.ID)
@@ -159,6 +185,13 @@ func runReaderCase(c *rdCase, file []byte, src string, dir string) (string, stri
 			if n <= 0 || sl != uint64(len(b.Cid.Bytes())+len(b.Data)) || !bytes.HasPrefix(file[int(md.SourceOffset)+n:], b.Cid.Bytes()) {
 				return "skip-bytes", fmt.Sprintf("step %d: bytes at SourceOffset %d are not the section of %s", i, md.SourceOffset, b.ID)
 			}
+		}
+	}
+	for _, k := range keptMd {
+		st := c.Hist[k.step]
+		if !k.md.Cid.Equals(alphaByID[st.B].Cid) || k.md.Offset != st.Offset || k.md.SourceOffset != st.Source || k.md.Size != st.Size {
+			return "skip-meta-kept", fmt.Sprintf("the metadata returned at step %d reads {Offset %d SourceOffset %d Size %d} after later calls, it was {%d %d %d}",
+				k.step, k.md.Offset, k.md.SourceOffset, k.md.Size, st.Offset, st.Source, st.Size)
 		}
 	}
 	if cnt != nil && c.A.Ver == 2 && cnt.n > c.End.Limit {
@@ -191,7 +224,7 @@ func runReaderReplay(args []string) int {
 				}
 				file := c.A.build()
 				cs := choiceString(c.Hist)
-				for _, src := range []string{"bytes.Reader", "io.Reader", "os.File", "io.Reader/1", "bytes.Reader+trusted", "io.Reader/7+trusted"} {
+				for _, src := range []string{"bytes.Reader", "io.Reader", "os.File", "io.Reader/1", "bytes.Reader+trusted", "io.Reader/7+trusted", "io.ByteReader"} {
 					var cls, msg string
 					func() {
 						defer func() {
